@@ -978,6 +978,7 @@ static void mode_more(vh::Trace& tr, long count, vh::Rng& rng) {
       int elo[3] = { 0, 0, 0 }, en[3] = { 1, 1, 1 };
       for (int a = 3 - D; a < 3; ++a) { elo[a] = rng.range(-3, 3); en[a] = rng.range(2, 4); }
       A3 d = rand_array(rng, elo, en, 100);
+      d.v[0] = -1; d.v[1] = 1;   // values just below and above 0
       if (D == 1) { const int sa = rng.range(0, 4); if (D == 1) one_elt<1>(tr, "abs", d, sa, sa); else if (D == 2) one_elt<2>(tr, "abs", d, sa, sa); else one_elt<3>(tr, "abs", d, sa, sa); }
       // log: data m * 2^j, m in {1,3,5}, always containing 1, 2, 3, 5 (in units of 2^-3)
       A3 l = d; static const int M[3] = { 1, 3, 5 };
